@@ -14,7 +14,7 @@ From Coq Require Import ZArith List Bool Lia.
 From Hts Require Import Base.Prim Generated Model.Index Model.Tabix Model.Csi Model.IndexSpec Model.TabixSpec
   Model.IndexIO Proofs.Index Proofs.TabixIdx Proofs.CsiIdx Proofs.TabixLift Proofs.CsiLift
   Proofs.IndexSort Proofs.IndexPremises Proofs.CsiPremise Proofs.IndexIOFull Proofs.IndexFinal Proofs.TabixIO
-  Proofs.CsiIO Proofs.IndexFinal2 Proofs.IndexHist.
+  Proofs.CsiIO Proofs.IndexFinal2 Proofs.IndexHist Proofs.CsiGen.
 Open Scope Z_scope.
 
 (** "Adding records in sorted order never fails or panics."  The hypotheses
@@ -251,6 +251,18 @@ Print Assumptions sort_moves_zero_tiles_to_front_harmlessly.
 
 Example sort_tiles_example : ix_sort_intv [100; 0; 0; 300; 0; 400] = [0; 0; 0; 100; 300; 400].
 Proof. reflexivity. Qed.
+
+(** The bin under which the CSI index model files a record ([cs_reg2bin]) is
+    the loop of csi.reg2bin as gen/ translates it from csi/csi.go on every
+    run, for every interval, geometry and every fuel above the depth: a change
+    to that loop in the source changes [csigen_reg2bin] and this theorem (and
+    with it the completeness theorems about [cs_reg2bin]) has to be re-proved. *)
+Theorem csi_index_bin_is_translated_loop :
+  forall beg e ms depth k,
+    0 <= depth < 2 ^ 32 -> - 2 ^ 63 < e <= 2 ^ 63 ->
+    csigen_reg2bin (S (Z.to_nat depth) + k) beg e ms depth = Ok (cs_reg2bin beg e ms depth).
+Proof. exact csigen_reg2bin_is_cs. Qed.
+Print Assumptions csi_index_bin_is_translated_loop.
 
 (** Non-vacuity for CSI (default geometry): the record that the unrepaired
     reg2bin filed under an unreachable bin. *)
